@@ -651,7 +651,55 @@ def r038(an, rep):
         lps = loops_of(first)
         if not lps:
             raise AnalysisError(f"{f.qual}: the store of an instruction's line is not inside a loop over instructions")
+        # the unit loop emits the code units of ONE instruction (it holds the appends); the instruction loop is the loop around it
+        app_calls = [c for c in ast.walk(f.node) if isinstance(c, ast.Call) and isinstance(c.func, ast.Attribute) and c.func.attr in ("append", "extend") and isinstance(c.func.value, ast.Name)]
+        unit = None
+        for c in app_calls:
+            ch = loops_of(c)
+            if ch and any(x is lps[-1] or x is lps[0] for x in ch) and (unit is None or len(ch) > len(loops_of(unit))):
+                unit = ch[0]
         loop = lps[0]
+        if unit is not None and loop is unit and len(loops_of(unit)) >= 1:
+            loop = loops_of(unit)[0]
+        # stores made inside the unit loop: one per unit is right for the line itself (R01.7); anything else must be made for the FIRST unit only
+        if unit is not None and unit is not loop and isinstance(unit, ast.For) and isinstance(unit.target, ast.Name):
+            from .encode_model import conj, guards_of
+            line_field = dict_fields[0]
+            for st in stores:
+                ch = loops_of(st)
+                if not ch or ch[0] is not unit:
+                    continue
+                fld = st.targets[0].value.attr
+                if fld == line_field:
+                    continue
+                found += 1
+                iv = unit.target.id
+                gs = [g for g, pos in guards_of(f.module, f, st) if any(isinstance(x, ast.Name) for x in ast.walk(g))]
+                # evaluate: for a 3-unit instruction, on which iterations does the guard hold?
+                try:
+                    seq = None
+                    for nunits in (3,):
+                        envi = {n_.id: nunits for n_ in ast.walk(unit.iter) if isinstance(n_, ast.Name) and n_.id not in ("reversed", "range", "enumerate")}
+                        seq = list(feval(unit.iter, envi))
+                    holds = []
+                    for pos_, ival in enumerate(seq):
+                        v = True
+                        for g in gs:
+                            ge0 = inline_reaching(unit, st, g)
+                            for ge in (ge0.values if isinstance(ge0, ast.BoolOp) and isinstance(ge0.op, ast.And) else [ge0]):
+                                names = {x.id for x in ast.walk(ge) if isinstance(x, ast.Name)}
+                                if iv not in names:
+                                    continue  # a condition on the data, not on the unit
+                                envg = {iv: ival}
+                                v = v and bool(feval(ge, envg))
+                        holds.append(v)
+                except Exception as ex:
+                    raise AnalysisError(f"{f.qual}: the store `{norm_src(st)[:50]}` inside the unit loop is guarded in a way that is not evaluable: {ex}")
+                okf = holds == [True] + [False] * (len(holds) - 1)
+                rep.add("R03.8", f"{f.qual}::{fld} keyed by the first code unit", okf, loc(f.module, st),
+                        "made for the first unit of the instruction only" if okf else
+                        f"inside the unit loop `{norm_src(st)[:60]}` is made for unit(s) {[i for i, h in enumerate(holds) if h]} of a 3-unit instruction (0 = the first EXTENDED_ARG), not for the first "
+                        f"unit only: the extra line-table entries of an instruction with EXTENDED_ARG prefixes are written {2 * (len(holds) - 1)} bytes late (or once per unit)")
         # byte list: the list whose length the keys measure / that the unit loop appends to
         applists = {c.func.value.id for c in ast.walk(loop) if isinstance(c, ast.Call) and isinstance(c.func, ast.Attribute) and c.func.attr in ("append", "extend")
                     and isinstance(c.func.value, ast.Name)}
@@ -662,6 +710,8 @@ def r038(an, rep):
             k = inline_reaching(loop, st, st.targets[0].slice)
             keys.append((st, k))
         if not keys:
+            if unit is not None and any(loops_of(st_)[:1] == [unit] for st_ in stores):
+                continue  # every store is made per unit: the key domain is R01.7's business
             raise AnalysisError(f"{f.qual}: no per-instruction line store")
         for st, k in keys:
             found += 1
